@@ -1187,7 +1187,7 @@ def _inv_last_other_lines(self, yielded, _i, _n, _xs):
 _LAST = 'last_line_wo_ending_new_line'
 _LOCALS = {'non_last_part': 'local', 'non_last_part_lines': 'local', 'first_line': 'local', 'non_first_line': 'local'}
 
-_LINES_ITER_PROOF = False      # TODO (work in progress): the five loop invariants below are not yet within the solvers' reach
+_LINES_ITER_PROOF = False      # TODO (work in progress): loop#2 / loop#4 entry obligations are not yet within the solvers' reach
 if _LINES_ITER_PROOF:
     M.contract(_P_CC + '._lines_iter', params=dict(self=CONCAT_CONTENTS), yields=ListOf(Str),
                ensures={'lines == split_nl(txt)': lambda self, yielded: is_split_nl(yielded, txt_of(self))},
